@@ -742,7 +742,11 @@ def c09(tier, seed):
     # large populations: thousands of instructions per step, over both assets of the multi-asset environment and in the
     # single-asset one (any batch-size-dependent processing path is taken), few steps
     for i, (comp, z) in enumerate([("MMixed", 400), ("MNested", 300), ("Mixed", 200)] if q else [("MMixed", 400), ("MNested", 300), ("Mixed", 200), ("MMixed", 800), ("TwoNoise", 300)]):
-        configs[7 + 2 * i].update({"comp": comp, "scale": z, "steps": 2 if q else 3})
+        configs[7 + 2 * i].update({"comp": comp, "scale": z, "steps": 3})
+    # environments that already have a history when the runner is called (quotes placed and one or two steps taken by hand)
+    for i in range(2, len(configs), 4):
+        if "scale" not in configs[i]:
+            configs[i]["pre"] = 1 + (i // 4) % 2
     cf = os.path.join(d, "configs.json")
     json.dump(configs, open(cf, "w"))
     t0 = time.time()
